@@ -172,7 +172,7 @@ class Heading(BlockToken):
         cls.level = len(match_obj.group(1))
         cls.content = (match_obj.group(2) or '').strip()
         cls.closing_sequence = (match_obj.group(3) or '').strip()
-        if set(cls.content) == {'#'}:
+        if set(cls.content) == {'#'} and not cls.closing_sequence:
             # a heading without content: what looks like content is the closing sequence
             cls.closing_sequence = cls.content
             cls.content = ''
